@@ -241,6 +241,16 @@ def search(ctx):
                                         "do_not_retry_for": [TAGS[t] for t in dnr], "outcomes": repr(script), "entry": entry},
                               "observed": {"result": repr(res), "log": log, "method_result": repr(ref[0]), "method_log": ref[1]},
                               "size": att * 10 + len(script), "case": None})
+    # "returns the first successful result unchanged" through rc[k]: every stored value that is not None is a hit, the falsy ones too
+    for value in (b"", "", 0, 0.0, False, [], {}, b"0", b"v"):      # (tuples stand for exceptions in this harness)
+        for script in ([value], [(21,), value], [(21,), (21,), value]):
+            n_sub += 1
+            res, log = run_impl(3, 1, [21], [], list(script), list, False, "getitem")
+            k = len(script)
+            if res != ("o", value) or type(res[1]) is not type(value) or log != ["c", 1] * (k - 1) + ["c"]:
+                found.append({"clause": "rc[key] with the stored value %r (after %d retried failure(s)) gave %r with log %r; get returns the value itself" % (value, k - 1, res, log),
+                              "input": {"attempts": 3, "retry_delay": 1, "retry_for": [TAGS[21]], "outcomes": repr(script), "entry": "getitem"},
+                              "observed": {"result": repr(res), "log": log}, "size": k, "case": None, "falsy_case": repr(script)})
     for att in (-1, 0, 1):
         for rf in CFG_ARGS:
             for dnr in CFG_ARGS:
@@ -264,6 +274,11 @@ def search(ctx):
 
 def replay(ctx, obj):
     v = obj.get("violation")
+    if v and v.get("falsy_case"):
+        script = eval(v["falsy_case"])
+        res, log = run_impl(3, 1, [21], [], list(script), list, False, "getitem")
+        print("rc[key] ->", res, log)
+        return res != ("o", script[-1])
     if not v or not v.get("case"):
         return None
     c = eval(v["case"])
